@@ -204,7 +204,7 @@ def _off_value(text):
     t = text
     if re.search(r"\.add_missing_columns$", t):
         return False
-    if re.search(r"\.strict == 'filter'$", t):
+    if re.search(r"\.strict == 'filter'$", t) or re.search(r"^'filter' == \S+\.strict$", t):
         return False
     if re.search(r"\.(_)?coerce$", t) and "(" not in t:
         return False
